@@ -4,7 +4,7 @@ import vlib, simlib
 
 def run(res, tier, seed, replay):
     res.corr_diffs, res.unknown = [], []
-    res.cov["rule"] = ("sim (unmodified patch_arm.rs compiled on the host): random 32-bit (src, fake) pairs in each of the three entry cases (A32; T32 with address = 0 mod 4; T32 with address = 2 mod 4) x both fake states, plus the two forced-boolean targets; "
+    res.cov["rule"] = ("sim (unmodified patch_arm.rs compiled on the host): random 32-bit (src, fake) pairs in each of the three entry cases (A32; T32 with address = 0 mod 4; T32 with address = 2 mod 4) x both fake states, plus the two forced-boolean targets, plus the same function patched a second time over the first patch (saved bytes = first patch, complete second patch, entry reaches the second fake); "
                        "bytes, saved range and guard vs the extracted EncArm model; monitor: the implementation's 12 bytes executed with the extracted A32/T32 semantics must arrive at the fake in the right state having written no register the AAPCS makes a callee preserve; "
                        "every distinct instruction word/halfword is disassembled with llvm-mc (armv7 / thumbv7) and compared with the Coq decoder; distinct = distinct (entry case, fake state, registers written)")
     res.cov["trusted_base"] = vlib.TRUSTED_COMMON + ["L0 A32/T32 fragment (coq/A32.v): LDR (literal) A1/T1/T2, BX, T16 NOP, with PC read value (+8/+4) and Align(PC,4); cross-checked against llvm-mc-14", "harness/sim shim and build.rs source preparation"]
@@ -100,6 +100,37 @@ def run(res, tier, seed, replay):
         else:
             ok2 = len(lines) == 2 and lines[0].startswith("ldr r") and lines[0].endswith("[pc, #-0]") and lines[1] == "bx " + lines[0].split()[1].rstrip(",")
             if not ok2: bad.append(dict(code=code.hex(), llvm=lines))
+    # the same function patched a SECOND time while the first patch is in place (re-faking): the second installation must save the 12 bytes
+    # of the first patch, write its own complete 12 bytes, and the entry must then reach the second fake
+    c2 = []
+    for i in range(90 if tier == "quick" else 3000):
+        s2 = (r.randrange(0x8000, 0xfffffff0) & ~3) | [0, 1, 3][i % 3]
+        k1 = r.getrandbits(32); k2 = r.getrandbits(32)
+        k1 = (k1 & ~3) if k1 % 2 == 0 else k1; k2 = (k2 & ~3) if k2 % 2 == 0 else k2
+        c2.append((f"d{i}", "arm", "exec2", s2, 0, k1 or 4, k2 or 8))
+    impl2 = simlib.run_sim(bins, "debug", "linux", c2)
+    m2 = vlib.run_model([f"{c[0]}a inst arm 1 1 exec {c[3]:x} 0 {c[5]:x}" for c in c2] + [f"{c[0]}b inst arm 1 1 exec {c[3]:x} 0 {c[6]:x}" for c in c2])
+    mon2, monc2 = [], {}
+    for c in c2:
+        case = dict(id=c[0], kind="patched twice", src=hex(c[3]), first_fake=hex(c[5]), second_fake=hex(c[6]))
+        st, iev = simlib.canon_impl(impl2.get(c[0], "PANIC other"))
+        if st != "OK" or "SECOND" not in iev: res.violation("patching an already patched 32-bit ARM function did not complete", case, impl2.get(c[0])); continue
+        k = iev.index("SECOND"); first, second = iev[:k], iev[k + 1:]
+        ma = simlib.canon_model(m2.get(c[0] + "a", "")); mb = simlib.canon_model(m2.get(c[0] + "b", ""))
+        p1 = [e for e in first if e.startswith("P ")]; p2 = [e for e in second if e.startswith("P ")]; g2 = [e for e in second if e.startswith("G ")]
+        mp1 = [e for e in ma[1] if e.startswith("P ")]; mp2 = [e for e in mb[1] if e.startswith("P ")]
+        if ("OK", first) != ma or p2 != mp2: res.corr_diffs.append(dict(case=case, impl=(first, second), model=(ma, mb)))
+        if not p1 or not p2 or not g2: res.violation("second patch: missing write or guard", case, second); continue
+        if len(p2[0].split()[2]) != 24 or p2[0].split()[1] != p1[0].split()[1]:
+            res.violation("the second patch does not write the complete 12 bytes at the entry", case, second)
+        if g2[0].split()[2] != p1[0].split()[2] or g2[0].split()[3] != "12":
+            res.violation("the second patch does not save exactly the 12 bytes of the first patch (restoring newest-first would not bring the first patch back)", case, second)
+        mon2.append(f"{c[0]} armreach {simlib.impl_writes(first + second)} {c[3]:x} {c[6]:x}"); monc2[c[0]] = case
+    for cid, v in (vlib.run_model(mon2) if mon2 else {}).items():
+        fake = int(monc2[cid]["second_fake"], 16)
+        if not v.startswith("REACHED") or (("thumb=true" in v) != bool(fake & 1)):
+            res.violation("after patching the same function a second time, the entry does not load and reach the SECOND fake", monc2[cid], v)
+    res.cov["evaluations"] += len(c2)
     res.extra["distinct_code_units_checked_with_llvm_mc"] = len(units)
     if bad: res.broke("llvm-mc reads the emitted instructions differently from the L0 A32/T32 fragment", json.dumps(bad[:5]))
     res.cov["evaluations"] += len(cases); res.cov["traces_validated_against_impl"] += len(cases); res.cov["distinct_nontrivial"] += len(distinct)
